@@ -251,6 +251,11 @@ def _range_bounds(r, n):
 @trait(('Vec', 'Index', 'index'), ('Vec', 'IndexMut', 'index_mut'), ('VecDeque', 'Index', 'index'), ('VecDeque', 'IndexMut', 'index_mut'),
        ('SmallVec', 'Index', 'index'), ('[]', 'Index', 'index'), ('[]', 'IndexMut', 'index_mut'), ('[;]', 'Index', 'index'))
 def _(vm, a, ci):
+    t0 = a[0]
+    while isinstance(t0, Ref): t0 = vm.ref_get(t0)
+    if isinstance(t0, (BStr, SymStr)) and isinstance(a[1], Adt) and a[1].ty.startswith('Range'):      # &[u8] view of text, sliced by a byte range
+        from .std_str import slice_str
+        return slice_str(vm, t0, a[1])
     s = slice_of(vm, a[0]); i = a[1]
     n = s.end - s.start
     if isinstance(i, Adt) and i.ty.startswith('Range'):
@@ -273,9 +278,15 @@ def _(vm, a, ci):
     if isinstance(s, BStr):       # &[u8] view of a str (as_bytes)
         if m == 'len': return s.nbytes()
         if m == 'is_empty': return s.nbytes() == 0
+        if m == 'iter':
+            from .stdcheck import P as _P
+            from .std_iter import drain
+            return It('list', [Ref(Cell(b)) for b in drain(vm, _P(vm, '<impl str>::bytes', s))], 0)      # slice::Iter yields references
+        if m == 'to_vec': return s
         if m == 'as_ptr': return Ref(_bufcell(s.buf), (), s.start)
         if m == 'as_ptr_range': return Adt('Range', 0, [Ref(_bufcell(s.buf), (), s.start), Ref(_bufcell(s.buf), (), s.end)])
         raise Unmodelled('byte-slice method on str: ' + m)
+    if isinstance(s, SymStr): raise Unmodelled('byte view of an opaque symbolic string: ' + m)
     items = vm.ref_get(s.ref).items; n = s.end - s.start
     if m == 'len': return n
     if m == 'is_empty': return n == 0
